@@ -5,6 +5,7 @@ package interpreter
 import (
 	"github.com/truora/minidyn/internal/nd"
 	"github.com/truora/minidyn/internal/vspec"
+	"github.com/truora/minidyn/types"
 )
 
 // vRepeat: the harnesses whose texts are concrete (token sequences, compositions, separators) ask every text
@@ -18,7 +19,9 @@ func vC09Env() (map[string]vspec.Val, map[string]vspec.Val) {
 		"l": {Kind: "L", L: []vspec.Val{{Kind: "S", S: "e"}}},
 		"m": {Kind: "M", M: map[string]vspec.Val{"k": {Kind: "S", S: "w"}}},
 	}
-	vals := map[string]vspec.Val{":x": {Kind: "S", S: "v"}, ":n": {Kind: "N", N: 7}}
+	// :n is any 16-bit integer: as an operand it compares with n = 7 either way, as a list index (l[:n]) it may
+	// lie before, inside or beyond the list
+	vals := map[string]vspec.Val{":x": {Kind: "S", S: "v"}, ":n": {Kind: "N", N: int64(nd.Int16("n"))}}
 	return item, vals
 }
 
@@ -210,5 +213,83 @@ func vCompose(depth int, name string) string {
 func VerifC09Compose() {
 	vRepeat = true
 	vC09Condition(vCompose(nd.Param("depth", 2), "e"), "C09-compose")
+	nd.Reach("end")
+}
+
+// VerifC09Index: list indexes. minidyn accepts a value placeholder as a list index (l[:n]); whatever integer it
+// holds - negative, inside the list, beyond its end - and whatever is written between the brackets, evaluating
+// the expression ends in a result or an error, never in a runtime fault, and an accepted text is a sentence.
+func VerifC09Index() {
+	vRepeat = true
+	conds := []string{"l[:n] = :x", "attribute_exists(l[:n])", "l[:n][:n] = :x", "m.k[:n] = :x", "l[ :n ] <> :x", "size(l[:n]) > :n", "l[-1] = :x", "l[:x] = :x", "l[a] = :x", "l[n] = :x", "l[] = :x", "l[0][0] = :x"}
+	upds := []string{"SET l[:n] = :x", "REMOVE l[:n]", "SET l[:n] = l[:n]", "REMOVE l[:n], l[0]", "SET a = l[:n]", "SET l[:n][:n] = :x", "REMOVE m.k[:n]", "SET l[-1] = :x", "REMOVE l[-1]",
+		"SET l[:x] = :x", "REMOVE l[n]", "SET l[n] = :x", "ADD l[:n] :n", "DELETE l[:n] :x", "SET l = list_append(l[:n], l)", "SET a = if_not_exists(l[:n], :x)"}
+	if nd.Choice("grammar", 2) == 0 {
+		vC09Condition(conds[nd.Choice("text", len(conds))], "C09-index")
+	} else {
+		vC09Update(upds[nd.Choice("text", len(upds))], "C09-uindex")
+	}
+	nd.Reach("end")
+}
+
+// VerifC09Aliases: an ExpressionAttributeNames entry may map a #name to any attribute name - any bytes,
+// including a name that itself starts with '#' or ':' or equals the placeholder. Whatever the entry and whether
+// or not the item has such an attribute, evaluating a condition or an update through it terminates with a result
+// or an error (no unbounded recursion, no runtime fault); where the attribute exists, "#a = :x" is its
+// comparison with :x and attribute_exists(#a) is true.
+func VerifC09Aliases() {
+	target := nd.StringN("target", 1+nd.Choice("target.len", 2))
+	has := nd.Choice("item-has-target", 2) == 1
+	val := nd.StringN("val", 1)
+	x := nd.StringN("x", 1)
+	mk := func() map[string]*types.Item {
+		v, w := val, "w"
+		it := map[string]*types.Item{"a": {S: &w}}
+		if has {
+			it[target] = &types.Item{S: &v}
+		}
+		return it
+	}
+	xs := x
+	attrs := map[string]*types.Item{":x": {S: &xs}}
+	aliases := map[string]string{"#a": target}
+	li := &Language{}
+	// what the #name means is asserted only for plain targets: the library reads a target with a dot as a document
+	// path when no attribute has that name (its tests pin "#pos": ":nestedMap.lvl1.lvl2") and keeps values and
+	// attributes in one name space, so that a target starting with ':' names a value. Termination and the absence
+	// of runtime faults are asserted for every target.
+	plain := target[0] != ':'
+	for i := 0; i < len(target); i++ {
+		if target[i] == '.' {
+			plain = false
+		}
+	}
+	if !plain {
+		has = has && false
+	}
+	switch nd.Choice("use", 4) {
+	case 0:
+		got, err := li.Match(MatchInput{TableName: "t", Expression: "#a = :x", ExpressionType: ExpressionTypeFilter, Item: mk(), Attributes: attrs, Aliases: aliases})
+		if has && target != "a" {
+			nd.Assert(err == nil && got == (val == x), "C09-alias-names-the-attribute")
+		}
+	case 1:
+		got, err := li.Match(MatchInput{TableName: "t", Expression: "attribute_exists(#a)", ExpressionType: ExpressionTypeConditional, Item: mk(), Aliases: aliases})
+		if target != "a" && plain {
+			nd.Assert(err == nil && got == has, "C09-alias-existence")
+		}
+	case 2:
+		it := mk()
+		err := li.Update(UpdateInput{TableName: "t", Expression: "SET #a = :x", Item: it, Attributes: attrs, Aliases: aliases})
+		if err == nil && plain {
+			nd.Assert(it[target] != nil && it[target].S != nil && *it[target].S == x, "C09-alias-set-names-the-attribute")
+		}
+	case 3:
+		it := mk()
+		err := li.Update(UpdateInput{TableName: "t", Expression: "REMOVE #a", Item: it, Aliases: aliases})
+		if err == nil && plain {
+			nd.Assert(it[target] == nil, "C09-alias-remove-names-the-attribute")
+		}
+	}
 	nd.Reach("end")
 }
